@@ -220,6 +220,14 @@ def fam_persist(ctx, rng):
     m = rec.ns.n_samples
     if m >= 20:
         L = (m // int(rng.integers(2, 6))) * dt
+        whole = str(rng.choice(["no", "no", "exactly-the-record", "one-sample-short", "more-than-half"]))
+        if whole == "exactly-the-record":
+            L = (m - 1) * dt                     # one window that spans the whole record: still a copy
+        elif whole == "one-sample-short":
+            L = (m - 2) * dt
+        elif whole == "more-than-half":
+            L = (m // 2 + int(rng.integers(1, max(2, m // 3)))) * dt
+        info = dict(info, split_window=whole)
         if L >= 2 * dt:
             src_before = snap.snap(arrays_of(rec))
             wins = rec.split(L)
